@@ -12,7 +12,7 @@ StdRoots == { <<>>, <<"b1">>, <<"b3", "b4">>, <<"b1", "b1">>, <<"b22">> }    \* 
 (* valid blocks only: verifying readers hash them *)
 IdsA == {"b1", "b2", "b3", "b4", "b5", "b6", "b10", "b20"}          \* collisions: same mh / same digest / v0 / identity
 IdsB == {"b1", "b8", "b9", "b12", "b13", "b14", "b19"}                   \* widths, empty data, varint boundaries, long CID
-IdsU == {"b1", "b26", "b12"}           \* b26: hash function without a registered hasher (no reader can verify it)
+IdsU == {"b1", "b26", "b27"}           \* b26: hash function without a registered hasher (no reader can verify it)
 IdsC == {"b24", "b23", "b25", "b1"}     \* b23/b24: identity CIDs with a long common digest prefix (indexed with StoreIdentityCIDs)
 IdsBig == {"b1", "b15", "b16"}
 IdsT == {"b1", "b3", "b5", "b9", "b10", "b12", "b14"}     \* b14: section body of exactly 128 bytes (prefix 0x80 0x01)
